@@ -121,6 +121,12 @@ func odds() []odd {
 		p.Function[0].ID = 1<<63 + 5
 		p.Mapping[0].ID = 1 << 40
 	})
+	// names that look like demangled C++ with brackets that do not match (operators, comparisons, debris):
+	// the demangling pass of pprof's own symbolizer strips parameter lists from such names
+	for _, k := range []string{"ns::Ptr::operator->", "ns::Ptr::operator>>(int)", "std::operator>=(a, b)", "a > b", "weird::name)", "ns::f(", "v<int", "a::b]", "x::y((", "::", "<>", ")("} {
+		k := k
+		add("cxxname="+k, func(p *profile.Profile) { p.Function[0].Name = k; p.Function[0].SystemName = k })
+	}
 	for _, k := range []string{"", "pprof::base", "bytes", "a\nb", "é", "\"", "<b>"} {
 		k := k
 		add("labelkey="+trunc(k), func(p *profile.Profile) { p.Sample[0].Label = map[string][]string{k: {"v"}} })
